@@ -779,3 +779,38 @@ def c18(chk):
     chk.canary_cases(r["cases_file"], flip_jwk_case)
     chk.assumptions += ["SHA-256 trusted; key material is syntactic (parameters are not checked to be points on a curve)",
                         "set_params_unchecked is excluded (named unchecked)"]
+
+
+# ------------------------------------------------------------------------------------------------
+# C14 — IOTA state-metadata packing
+# ------------------------------------------------------------------------------------------------
+
+def flip_metadata_case(rows, k=3):
+    out = []
+    for r in rows:
+        if r["ok"] and r["target"] == "t" and r["frame"] == "intact" and r["doc"]["services"]:
+            r = json.loads(json.dumps(r))
+            r["expect"]["services"] = []          # claim the services vanish on unpacking
+            out.append(r)
+            if len(out) >= k:
+                break
+    if not out:
+        raise ToolError("canary: no suitable row")
+    return out
+
+
+@plan("C14")
+def c14(chk):
+    chk.rule = ("TLC explores Pack -> frame mutation -> Unpack for every document shape over DID tags (controllers, methods as "
+                "(id DID, controller DID) pairs incl. foreign ones, an embedded method, references to own and foreign methods, "
+                "services, alsoKnownAs, a custom property mentioning a foreign DID) x unpack target (same DID / another DID) x "
+                "frame (intact, trailing bytes; on a slice of documents: each marker byte, version 0/2/255, encoding 1/255, "
+                "length +1/+1000/-1/0, truncations, empty), checking round trip, rewrite-only-self, foreign-untouched and "
+                "no-placeholder-left. Every behaviour is replayed on real IotaDocuments on rotating networks (own DID with / "
+                "without network segment, targets on another / the default / the same network): the unpacked document must equal "
+                "an independently built expected document; the 16-bit size limit is probed at 65 535 / 65 536 bytes.")
+    r = chk.mc("StateMetadata", "StateMetadata_%s.cfg" % chk.tier, workers=4, timeout=900, heap="4g")
+    chk.replay(r["cases_file"], timeout=3000)
+    chk.canary_cases(r["cases_file"], flip_metadata_case)
+    chk.assumptions += ["documents that mention the placeholder DID are outside the property's domain and are not generated",
+                        "ledger address fields of the metadata are excepted (they are never packed)"]
